@@ -158,6 +158,8 @@ def api_lines(rnd, samples3=120, bufs=False):
                 kv += " clk=%d:%d" % (1 + ai, 999999999 * ai)
             for q in (seqs if ai == 0 else seqs[: 1 + len(alpha)]):
                 l = "gen %s %s" % (kind, kv) + ((" ops=" + ",".join(q)) if q else "")
+                if rnd.random() < 0.3:
+                    l += " fcflags=%d" % rnd.choice([0x80, 0x40, 0x01, 0xff, 0x88, rnd.getrandbits(8)])     # header flag octet set by the caller
                 if bufs:
                     l += " buf=%d" % rnd.choice([0, 1, 23, 24, 25, 36, 40, 64, 300, 2000])
                 if len(l) < 3000:
